@@ -43,9 +43,12 @@ var _ Pass = (*FlattenDisjunctions)(nil)
 //	AnyStruct: SomeStruct | OtherStruct | LastStruct # this disjunction has been flattened
 //	```
 type FlattenDisjunctions struct {
+	schemas ast.Schemas
 }
 
 func (pass *FlattenDisjunctions) Process(schemas []*ast.Schema) ([]*ast.Schema, error) {
+	pass.schemas = schemas
+
 	visitor := &Visitor{
 		OnDisjunction: pass.processDisjunction,
 	}
@@ -59,7 +62,7 @@ func (pass *FlattenDisjunctions) processDisjunction(_ *Visitor, schema *ast.Sche
 	return def, nil
 }
 
-func (pass *FlattenDisjunctions) flattenDisjunction(schema *ast.Schema, disjunction ast.DisjunctionType) *ast.DisjunctionType {
+func (pass *FlattenDisjunctions) flattenDisjunction(_ *ast.Schema, disjunction ast.DisjunctionType) *ast.DisjunctionType {
 	newDisjunction := disjunction.DeepCopy()
 	newDisjunction.Branches = nil
 
@@ -88,12 +91,9 @@ func (pass *FlattenDisjunctions) flattenDisjunction(schema *ast.Schema, disjunct
 			continue
 		}
 
-		resolved, found := schema.Resolve(branch)
-		if !found {
-			// FIXME: error here?
-			continue
-		}
-
+		// references are resolved across all the schemas: the branch might
+		// refer to an object defined in another package.
+		resolved := pass.schemas.ResolveToType(branch)
 		if !resolved.IsDisjunction() {
 			addBranch(typeName, branch)
 			continue
